@@ -51,7 +51,7 @@ def coreDesc (C : Cipher) (mode : String) (iv : Bytes) : Option AnyCoreDesc :=
 /-! ### impl layer -/
 
 def streamImplMachine {σ : Type} (D : CoreDesc σ) (w : Nat) : Machine (Pool (Wr σ)) where
-  init := { insts := #[Wr.fromCore D.K D.init], cur := 0 }
+  init := { insts := [Wr.fromCore D.K D.init], cur := 0 }
   step := fun p toks =>
     let d := Wr.fromCore D.K D.init
     match poolStep p d toks with
@@ -104,7 +104,7 @@ def streamImplMachine {σ : Type} (D : CoreDesc σ) (w : Nat) : Machine (Pool (W
       | _ => (p, bad)
 
 def coreImplMachine {σ : Type} (D : CoreDesc σ) (w : Nat) : Machine (Pool σ) where
-  init := { insts := #[D.init], cur := 0 }
+  init := { insts := [D.init], cur := 0 }
   step := fun p toks =>
     let d := D.init
     match poolStep p d toks with
@@ -149,7 +149,7 @@ def coreImplMachine {σ : Type} (D : CoreDesc σ) (w : Nat) : Machine (Pool σ) 
 def ksByteOf {σ : Type} (D : CoreDesc σ) (p : Nat) : UInt8 := Spec.ksByte D.K.bs D.ks p
 
 def streamSpecMachine {σ : Type} (D : CoreDesc σ) : Machine (Pool Nat) where
-  init := { insts := #[0], cur := 0 }
+  init := { insts := [0], cur := 0 }
   step := fun p toks =>
     match poolStep p 0 toks with
     | some r => r
@@ -202,7 +202,7 @@ def streamSpecMachine {σ : Type} (D : CoreDesc σ) : Machine (Pool Nat) where
       | _ => (p, bad)
 
 def coreSpecMachine {σ : Type} (D : CoreDesc σ) : Machine (Pool (Nat × Nat)) where
-  init := { insts := #[(0, 0)], cur := 0 }
+  init := { insts := [(0, 0)], cur := 0 }
   step := fun p toks =>
     match poolStep p (0, 0) toks with
     | some r => r
